@@ -27,8 +27,9 @@ Record conn := mk_conn {
   pool : N;                 (** sender credit provider: credits *)
   pool_closed : option bool;(** closed(gracefully) *)
   rx_open : bool;           (** [receiver_tx_data.is_some()] *)
-  rxq : list N;             (** per-port receive queue: the flow-control cost of each queued message
-                                ([Finished] costs 0); the credit monitor's [used] is their sum *)
+  rxq : list (N * list N);  (** per-port receive queue: the flow-control cost of each queued message
+                                ([Finished] costs 0) and the remote ports of the requests it carries;
+                                the credit monitor's [used] is the sum of the costs *)
   rx_closed : bool;         (** ReceiveClose sent *)
   rx_dropped : bool;        (** ReceiveFinish sent *)
   tx_dropped : bool;        (** SendFinish sent *)
@@ -80,6 +81,7 @@ Inductive eff :=
 | Respond (req : N) (r : cresp)
 | NewPort (local remote_port : N)          (** sender/receiver pair created and handed out *)
 | ToListener (r : lreq)
+| PortRequests (p : N) (rs : list N)        (** [Request] objects queued for the receiver of port [p] *)
 | DropRequest (remote_port : N)            (** a [Request] object is dropped unanswered: its rejecter task fires *)
 | ListenerClientDropped
 | DropNumber (p : N).                      (** a [PortNumber] is dropped: released in the allocator *)
@@ -110,7 +112,7 @@ Inductive outcome :=
 | Proto (e : perr) (effs : list eff)     (** [run] returns [Err(Protocol)] / [Err(Reset)] *)
 | Panic (site : psite).
 
-Definition used (c : conn) : N := sum (rxq c).
+Definition used (c : conn) : N := sum (map fst (rxq c)).
 
 Definition new_conn (m : mux) (remote_port : N) : conn :=
   {| remote := remote_port; pool := rcfg_buffer m; pool_closed := None; rx_open := true; rxq := [];
@@ -254,7 +256,7 @@ Definition handle_received (m : mux) (msg : Wire.msg) (paylen : N) : outcome :=
             if (paylen <? 4294967296) && (paylen <=? cfg_chunk m) then
               let cost := N.max DATA_MIN_COST paylen in
               if (used c + cost <? 4294967296) && (used c + cost <=? cfg_buffer m) then
-                Done (m <| ports := insert port (Connected (c <| rxq := rxq c ++ [cost] |>)) (ports m) |>) []
+                Done (m <| ports := insert port (Connected (c <| rxq := rxq c ++ [(cost, [])] |>)) (ports m) |>) []
               else Proto POverdraw []
             else Proto PChunkSize []
           else Proto PDataNotConnected []
@@ -279,8 +281,8 @@ Definition handle_received (m : mux) (msg : Wire.msg) (paylen : N) : outcome :=
                     if (size <? 4294967296) && (size <=? cfg_chunk m) then
                       if (used c + size <? 4294967296) && (used c + size <=? cfg_buffer m) then
                         Done (m <| outstanding := o |>
-                                <| ports := insert port (Connected (c <| rxq := rxq c ++ [size] |>)) (ports m) |>)
-                             []
+                                <| ports := insert port (Connected (c <| rxq := rxq c ++ [(size, ps)] |>)) (ports m) |>)
+                             [PortRequests port ps]
                       else Proto POverdraw []
                     else Proto PPortChunk []
                 end
@@ -300,7 +302,7 @@ Definition handle_received (m : mux) (msg : Wire.msg) (paylen : N) : outcome :=
       match lookup port (ports m) with
       | Some (Connected c) =>
           if rx_open c then
-            let m1 := m <| ports := insert port (Connected (c <| rx_open := false |> <| rxq := rxq c ++ [0] |>)) (ports m) |> in
+            let m1 := m <| ports := insert port (Connected (c <| rx_open := false |> <| rxq := rxq c ++ [(0, [])] |>)) (ports m) |> in
             match maybe_free m1 port with
             | Some (m2, effs) => Done m2 effs
             | None => Panic SiteMaybeFree
